@@ -1012,7 +1012,10 @@ class BaseEvolutionOperations(object):
                                      new_value):
         """Returns the SQL for changing a column's name."""
         new_field = copy.copy(field)
-        new_field.column = new_value
+
+        # A db_column of None means the field goes back to its default
+        # column name.
+        new_field.column = new_value or field.get_attname()
 
         return self.rename_column(model, field, new_field)
 
